@@ -256,6 +256,12 @@ func cmdCheck(args []string) int {
 				isU = true
 			}
 		}
+		for i := range ff.Findings {
+			f := &ff.Findings[i]
+			if f.Property == *prop && f.Status == "finding" && f.Obligation == ob.Name && f.Residual == "" {
+				isU = true // a listed finding without residual is expected to fail: no need for the long timeout
+			}
+		}
 		if isU || ob.Cover {
 			otherObs = append(otherObs, ob)
 		} else {
